@@ -1,4 +1,5 @@
 import GoomVerif.Model.A64Dec
+import GoomVerif.Model.A64Full
 import GoomVerif.Lemmas.C15L
 /-! Helper lemmas for C17: the Arm ARM displacement formulas, the generic "first intersecting row" argument over the
     decoding table, env-independent decoding, and the scan invariants.  Kernel-only tactics. -/
@@ -211,11 +212,95 @@ theorem decodeDefFrom_sound (env : Env) (x : BitVec 32) : ∀ rows i r, decodeDe
     · rename_i hm; simp only [hm, if_true]; exact ih _ _ h
     · rename_i hm
       split at h
-      · simp at h
-      · rename_i hd
-        simp only [Bool.or_eq_true, Bool.not_eq_true', not_or, Bool.not_eq_true, Bool.not_eq_false] at hd
-        simp only [Option.some.injEq] at h
-        simp [hm, hd.1, decodeArgs_interpreted env i x r0.args hd.2, h]
+      · rename_i hc
+        split at h
+        · simp at h
+        · rename_i f hf
+          split at h
+          · rename_i hfx
+            split at h
+            · rename_i ha
+              simp only [Option.some.injEq] at h
+              simp [hm, hc, condVal, hf, hfx, decodeArgs_interpreted env i x r0.args ha, h]
+            · simp at h
+          · rename_i hfx
+            simp only [hm, hc, condVal, hf, hfx, Bool.true_and, Bool.not_false, if_true, Bool.false_eq_true, if_false]
+            exact ih _ _ h
+      · rename_i hc
+        split at h
+        · simp at h
+        · rename_i ha
+          simp only [Bool.not_eq_true', Bool.not_eq_false] at ha
+          simp only [Option.some.injEq] at h
+          simp [hm, hc, decodeArgs_interpreted env i x r0.args ha, h]
+
+/-- first row intersecting the class, with the rest of the table from it on -/
+def firstHitRest (m v : BitVec 32) : List Row → Nat → Option (Nat × List Row)
+  | [], _ => none
+  | r :: rs, i => if overlaps m v r then some (i, r :: rs) else firstHitRest m v rs (i + 1)
+
+/-- for a word of the class the search may start at the first intersecting row -/
+theorem decodeFrom_firstHitRest (env : Env) (m v x : BitVec 32) (hx : x &&& m = v) :
+    ∀ rows i j suf, firstHitRest m v rows i = some (j, suf) → decodeFrom env rows i x = decodeFrom env suf j x := by
+  intro rows
+  induction rows with
+  | nil => intro i j suf h; simp [firstHitRest] at h
+  | cons r0 rs ih =>
+    intro i j suf h
+    unfold firstHitRest at h
+    by_cases ho : overlaps m v r0 = true
+    · simp only [ho, if_true, Option.some.injEq, Prod.mk.injEq] at h
+      obtain ⟨rfl, rfl⟩ := h
+      rfl
+    · simp only [ho] at h
+      have hne : x &&& r0.mask ≠ r0.value := by
+        intro hmm
+        apply ho
+        have := overlap_of_match x m v r0.mask r0.value hx hmm
+        simp [overlaps, this]
+      conv => lhs; unfold decodeFrom
+      simp only [bne_iff_ne, ne_eq, hne, not_false_eq_true, if_true]
+      exact ih (i + 1) j suf (by simpa using h)
+
+/-- row `r` covers the class: every word of the class matches its mask/value -/
+def covers (m v : BitVec 32) (r : Row) : Bool := (r.mask &&& m == r.mask) && (v &&& r.mask == r.value)
+
+/-- what `decide` checks for a class whose first intersecting row is an ALIAS with an interpreted `canDecode` (id `c`) and whose
+    next row is the plain encoding: both cover the class, both have only interpreted argument kinds -/
+def classCheck2 (m v : BitVec 32) (c : Nat) (n1 : String) (k1 : List Nat) (n2 : String) (k2 : List Nat) : Bool :=
+  match firstHitRest m v table 0 with
+  | some (_, r1 :: r2 :: _) =>
+    covers m v r1 && r1.cond && (r1.condId == c) && (opName r1.op == n1) && (r1.args == k1) && argsInterpreted k1 &&
+    covers m v r2 && !r2.cond && (opName r2.op == n2) && (r2.args == k2) && argsInterpreted k2
+  | _ => false
+
+theorem decode_class2 (env : Env) (m v : BitVec 32) (c : Nat) (f : BitVec 32 → Bool) (hf : interpCond c = some f)
+    (n1 : String) (k1 : List Nat) (n2 : String) (k2 : List Nat) (hc : classCheck2 m v c n1 k1 n2 k2 = true)
+    (x : BitVec 32) (hx : x &&& m = v) :
+    ∃ r, decode env x = some r ∧
+      (if f x then opName r.op = n1 ∧ r.args = argsOf k1 x else opName r.op = n2 ∧ r.args = argsOf k2 x) := by
+  unfold classCheck2 at hc
+  split at hc
+  · rename_i j r1 r2 rest hfr
+    simp only [Bool.and_eq_true, beq_iff_eq, Bool.not_eq_true', covers] at hc
+    obtain ⟨⟨⟨⟨⟨⟨⟨⟨⟨⟨⟨a1, a2⟩, a3⟩, a4⟩, a5⟩, a6⟩, a7⟩, ⟨b1, b2⟩⟩, b3⟩, b5⟩, b6⟩, b7⟩ := hc
+    have hm1 := match_of_cover x m v r1.mask r1.value hx a1 a2
+    have hm2 := match_of_cover x m v r2.mask r2.value hx b1 b2
+    have hd := decodeFrom_firstHitRest env m v x hx table 0 j _ hfr
+    unfold decode
+    rw [hd]
+    by_cases hfx : f x = true
+    · refine ⟨⟨j, r1.op, argsOf r1.args x⟩, ?_, ?_⟩
+      · unfold decodeFrom
+        simp [hm1, a3, condVal, a4, hf, hfx, decodeArgs_interpreted env j x r1.args (by rw [a6]; exact a7)]
+      · simp [hfx, a5, a6]
+    · refine ⟨⟨j + 1, r2.op, argsOf r2.args x⟩, ?_, ?_⟩
+      · unfold decodeFrom
+        simp only [hm1, a3, condVal, a4, hf, hfx]
+        unfold decodeFrom
+        simp [hm2, b3, decodeArgs_interpreted env (j + 1) x r2.args (by rw [b6]; exact b7)]
+      · simp [hfx, b5, b6]
+  · simp at hc
 
 /-! ### scans -/
 
@@ -364,5 +449,80 @@ theorem split_sf (x v : BitVec 32) (hx : x &&& 0x7f000000#32 = v) :
   rcases bit31_cases x with ⟨h, hb⟩ | ⟨h, hb⟩
   · left; refine ⟨?_, hb⟩; rw [hm, BitVec.and_or_distrib_left, hx, h]; simp
   · right; refine ⟨?_, hb⟩; rw [hm, BitVec.and_or_distrib_left, hx, h]
+
+/-! ### the words goom itself emits on arm64 (monkey_arm64.go / jmp_arm64.go `movImm`) -/
+
+
+theorem himask23 (x : BitVec 32) : x &&& 0xff800000#32 = (x >>> 23) <<< 23 := by
+  have h : (0xff800000#32) = BitVec.allOnes 32 <<< 23 := by decide
+  rw [h]
+  ext i hi
+  simp only [BitVec.getElem_and, BitVec.getElem_shiftLeft, BitVec.getElem_allOnes, BitVec.getElem_ushiftRight]
+  by_cases h23 : i < 23
+  · simp [h23]
+  · simp [h23]; congr 1; omega
+
+/-- the move-wide word `movImm` builds (C15L.movImm_word), as a number -/
+def movN (opc h v : Nat) : Nat := 2^31 + opc * 2^29 + 37 * 2^23 + h * 2^21 + v * 32 + 26
+
+theorem movword_class (opc h v : Nat) (_ho : opc < 4) (hh : h < 4) (hv : v < 65536) :
+    BitVec.ofNat 32 (movN opc h v) &&& 0xff800000#32 = BitVec.ofNat 32 ((256 + opc * 64 + 37) * 2^23) := by
+  rw [himask23]
+  apply BitVec.eq_of_toNat_eq
+  simp only [BitVec.toNat_shiftLeft, BitVec.toNat_ushiftRight, BitVec.toNat_ofNat, Nat.shiftLeft_eq, Nat.shiftRight_eq_div_pow, movN]
+  omega
+
+theorem movword_fields (opc h v : Nat) (_ho : opc < 4) (hh : h < 4) (hv : v < 65536) :
+    r5 (BitVec.ofNat 32 (movN opc h v)) 0 = 26 ∧ (imm16 (BitVec.ofNat 32 (movN opc h v))).toNat = v ∧
+    (hw (BitVec.ofNat 32 (movN opc h v))).toNat = h := by
+  have m5 : ∀ y : BitVec 32, (y &&& 0x1f#32).toNat = y.toNat % 2^5 := fun y => and_mask y 5 _ (by decide)
+  have m16 : ∀ y : BitVec 32, (y &&& 0xffff#32).toNat = y.toNat % 2^16 := fun y => and_mask y 16 _ (by decide)
+  refine ⟨?_, ?_, ?_⟩
+  · simp only [r5, m5, BitVec.toNat_ushiftRight, BitVec.toNat_ofNat, Nat.shiftRight_zero, movN]; omega
+  · simp only [imm16, m16, BitVec.toNat_ushiftRight, BitVec.toNat_ofNat, Nat.shiftRight_eq_div_pow, movN]; omega
+  · simp only [hw, m2, BitVec.toNat_ushiftRight, BitVec.toNat_ofNat, Nat.shiftRight_eq_div_pow, movN]; omega
+
+/-! ### the oracle-free model (Model/A64Full over the mechanically translated Gen.A64Args) -/
+
+/-- for kinds whose translated case is panic-free the fallback oracle is never consulted -/
+theorem genEnv_argOk_indep (fb1 fb2 : Env) (i k : Nat) (x : BitVec 32) (hk : k ∉ Gen.A64Args.badKinds) :
+    (genEnv fb1).argOk i k x = (genEnv fb2).argOk i k x := by
+  rcases Gen.A64Args.decodeArgOut_ok k x hk with h | h <;> simp [genEnv, h]
+
+theorem decodeArgs_genEnv_indep (fb1 fb2 : Env) (i : Nat) (x : BitVec 32) :
+    ∀ ks : List Nat, (∀ k ∈ ks, k ∉ Gen.A64Args.badKinds) → decodeArgs (genEnv fb1) i ks x = decodeArgs (genEnv fb2) i ks x := by
+  intro ks
+  induction ks with
+  | nil => intro _; rfl
+  | cons k ks ih =>
+    intro h
+    unfold decodeArgs
+    by_cases hk0 : k = 0
+    · simp [hk0]
+    · have h1 := genEnv_argOk_indep fb1 fb2 i k x (h k List.mem_cons_self)
+      have h2 := ih (fun k' hk' => h k' (List.mem_cons_of_mem _ hk'))
+      simp only [hk0, if_false, decodeArg, h1, h2]
+
+theorem decodeFrom_genEnv_indep (fb1 fb2 : Env) (x : BitVec 32)
+    (hc : ∀ i c x, genCond c = none → fb1.condOk i c x = fb2.condOk i c x) :
+    ∀ rows i, (∀ r ∈ rows, ∀ k ∈ r.args, k ∉ Gen.A64Args.badKinds) →
+      decodeFrom (genEnv fb1) rows i x = decodeFrom (genEnv fb2) rows i x := by
+  intro rows
+  induction rows with
+  | nil => intro i _; rfl
+  | cons r rs ih =>
+    intro i h
+    have hargs := decodeArgs_genEnv_indep fb1 fb2 i x r.args (h r List.mem_cons_self)
+    have hrest := ih (i + 1) (fun r' hr' => h r' (List.mem_cons_of_mem _ hr'))
+    have hcond : condVal (genEnv fb1) i r.condId x = condVal (genEnv fb2) i r.condId x := by
+      unfold condVal
+      split
+      · rfl
+      · simp only [genEnv]
+        cases hg : genCond r.condId with
+        | some f => rfl
+        | none => exact hc i r.condId x hg
+    unfold decodeFrom
+    rw [hcond, hargs, hrest]
 
 end C17L
